@@ -742,7 +742,7 @@ var Prop = &fw.Prop{
 		}
 		return false
 	},
-	Sigs:     map[string]func(fw.Case, []string, string) bool{},
+	Sigs: map[string]func(fw.Case, []string, string) bool{},
 	// the index a request must be answered with is its position in the script: lines are not dropped one by one
 	FixedLayout: true,
 	Shrink:      shrinkCase,
